@@ -16,6 +16,7 @@ import (
 	"sync"
 	"sync/atomic"
 	"time"
+	"unsafe"
 
 	"github.com/anishathalye/porcupine"
 	"github.com/jech/storrent/alloc"
@@ -263,7 +264,30 @@ func (s *store) exec(w int, o op, salt uint64) {
 	case opDel:
 		atomic.AddInt64(&s.kills, 1)
 		e.Call = s.stamp()
+		// Del waits for pieces that are being hashed. If it is still waiting after two minutes (virtual in
+		// a bubble, real otherwise; a hash takes milliseconds) nobody is going to release that piece: reported,
+		// and the busy marks are cleared by force so that the run can go on to the next case.
+		delDone := make(chan struct{})
+		go func() {
+			select {
+			case <-delDone:
+				return
+			case <-time.After(2 * time.Minute):
+			}
+			sn := s.snap()
+			var busy []int
+			for i, b := range sn.busy {
+				if b {
+					busy = append(busy, i)
+				}
+			}
+			for _, pr := range []string{"C03", "C01"} {
+				s.viol(pr, "hang", "del-never-returns", fmt.Sprintf("Pieces.Del() has not returned after two minutes; pieces still marked busy: %v", busy), o)
+			}
+			s.forceUnbusy()
+		}()
 		s.ps.Del()
+		close(delDone)
 		e.Ret = s.stamp()
 		s.record(e)
 		atomic.AddInt64(&s.kills, -1)
@@ -340,6 +364,21 @@ type snapshot struct {
 	busy     []bool
 	has      []bool
 	missing  string
+}
+
+// forceUnbusy clears every busy mark (only after a hang has been reported).
+func (s *store) forceUnbusy() {
+	pieces := reflect.ValueOf(s.ps).Elem().FieldByName("pieces")
+	if !pieces.IsValid() {
+		return
+	}
+	for i := 0; i < pieces.Len(); i++ {
+		st := pieces.Index(i).FieldByName("state")
+		if st.IsValid() && st.CanAddr() && st.Kind() == reflect.Uint32 {
+			p := (*uint32)(unsafe.Pointer(st.UnsafeAddr()))
+			atomic.CompareAndSwapUint32(p, 2, 0)
+		}
+	}
 }
 
 func (s *store) snap() snapshot {
